@@ -31,3 +31,28 @@ Definition c19ok (c : c19case) : bool :=
   let fs := a_run rule_repaired (c19events c) in
   forallb (fun xo => list_eqb pair_eqb (frames_of (fst xo) fs) (snd xo)) (c19frames c) &&
   Nat.eqb (length fs) (fold_left (fun n xo => n + length (snd xo)) (c19frames c) 0).
+
+(* ---- the agent across processes (Runtime/AgentProc.v) against a real Agent: processes open a port of a loaded
+   symbol, send and answer requests, and terminate with requests unanswered (the closing reader then hands out drop
+   notices through the packet hooks AFTER the agent's exit hook); after every operation, for every process, whether the
+   agent lists it and the frames it holds for it ---- *)
+From Uf Require Import Runtime.AgentProc.
+Definition apobs := (nat * bool * list (option nat * option nat))%type.
+Definition apcase := list (list pev * list apobs).
+
+Definition ap_obs_ok (st : ag) (o : apobs) : bool :=
+  let '(p, tracked, fr) := o in
+  Bool.eqb (mem p (g_procs st)) tracked
+  && list_eqb pair_eqb (map (fun f => (f_in f, f_out f)) (frames_for p st)) fr.
+
+Fixpoint ap_ok_from (st : ag) (c : apcase) : bool :=
+  match c with
+  | [] => true
+  | (evs, obs) :: rest =>
+      let st' := fold_left (g_step true) evs st in
+      forallb (ap_obs_ok st') obs && ap_ok_from st' rest
+  end.
+Definition ap_ok (c : apcase) : bool := ap_ok_from ag0 c.
+
+Definition c19any := (c19case + apcase)%type.
+Definition c19ok_any (c : c19any) : bool := match c with inl x => c19ok x | inr y => ap_ok y end.
